@@ -558,3 +558,163 @@ Example stop_saved_ip_is_trampoline_refuted :
   option_map snd (exit_stop s) = Some (Real 100) /\
   match rs s with f :: _ => fip f = Tramp KM | [] => False end.
 Proof. vm_compute. split; reflexivity. Qed.
+
+(* ------------------------------------------------------------------ --estimate-return: nothing is hijacked *)
+Lemma run_ops_est_app s a b :
+  run_ops_est s (a ++ b) =
+  let '(s1, u1) := run_ops_est s a in let '(s2, u2) := run_ops_est s1 b in (s2, u1 ++ u2).
+Proof.
+  revert s. induction a as [|o a IH]; intro s; cbn [app run_ops_est].
+  - now destruct (run_ops_est s b).
+  - destruct (run_op_est s o) as [s1 u]. rewrite IH.
+    destruct (run_ops_est s1 a) as [s2 us]. now destruct (run_ops_est s2 b).
+Qed.
+
+(* the entry hooks and the cygprof exit never write a return-address slot *)
+Lemma run_op_est_mem s o : match o with OPush _ _ => True | _ => mem (fst (run_op_est s o)) = mem s end.
+Proof.
+  destruct o as [l a|h l| |l|l]; cbn; auto.
+  - destruct h as [|r| |]; reflexivity.
+  - unfold exit_cyg. destruct (rs s) as [|f t]; auto. destruct (fkind f); reflexivity.
+Qed.
+
+Definition PE (c : call) : Prop := forall d s,
+  exists s' outs, run_ops_est s (body d c) = (s', outs) /\
+                  targets outs = map Some (native_body c) /\
+                  (forall l, l <= d -> mem s' l = mem s l).
+
+Definition QE (c : call) : Prop := forall d s,
+  exists s' outs, run_ops_est s (full d c) = (s', outs) /\
+                  targets outs = map Some (native c) /\
+                  (forall l, l < d -> mem s' l = mem s l).
+
+Lemma QE_of_PE c : PE c -> QE c.
+Proof.
+  intros HP d s. unfold full. cbn [run_ops_est run_op_est].
+  set (s1 := mkSt (upd (mem s) d (Real (ra_of c))) (rs s)).
+  destruct (HP d s1) as (s2 & outs & Hr & Ht & Hm).
+  rewrite run_ops_est_app, Hr. cbn [run_ops_est run_op_est].
+  exists s2. eexists. split; [reflexivity|]. split.
+  - change (UNone :: outs ++ [URet 0 (mem s2 d)]) with ([UNone] ++ outs ++ [URet 0 (mem s2 d)]).
+    rewrite !targets_app, Ht. unfold native. rewrite map_app. cbn.
+    rewrite Hm by lia. unfold s1. cbn. now rewrite upd_same.
+  - intros l Hl. rewrite Hm by lia. unfold s1. cbn. now rewrite upd_other by lia.
+Qed.
+
+Lemma kids_run_est kids : Forall QE kids -> forall d s,
+  exists s' outs,
+    run_ops_est s (concat (map (fun k => OPush (S d) (ra_of k) :: body (S d) k ++ [ORet (S d)]) kids)) = (s', outs) /\
+    targets outs = map Some (concat (map (fun k => native_body k ++ [Real (ra_of k)]) kids)) /\
+    (forall l, l <= d -> mem s' l = mem s l).
+Proof.
+  induction 1 as [|k t Hk _ IH]; intros d s.
+  - exists s, []. cbn. auto.
+  - cbn [map concat]. rewrite run_ops_est_app.
+    destruct (Hk (S d) s) as (s1 & o1 & Hr1 & Ht1 & Hm1). unfold full in Hr1. rewrite Hr1.
+    destruct (IH d s1) as (s2 & o2 & Hr2 & Ht2 & Hm2). rewrite Hr2.
+    exists s2, (o1 ++ o2). split; [reflexivity|]. split.
+    + rewrite targets_app, Ht1, Ht2. unfold native. now rewrite <- map_app.
+    + intros l Hl. rewrite Hm2, Hm1 by lia. reflexivity.
+Qed.
+
+Lemma tails_run_est tails : Forall PE tails -> forall d s,
+  exists s' outs,
+    run_ops_est s (concat (map (body d) tails)) = (s', outs) /\
+    targets outs = map Some (concat (map native_body tails)) /\
+    (forall l, l <= d -> mem s' l = mem s l).
+Proof.
+  induction 1 as [|k t Hk _ IH]; intros d s.
+  - exists s, []. cbn. auto.
+  - cbn [map concat]. rewrite run_ops_est_app.
+    destruct (Hk d s) as (s1 & o1 & Hr1 & Ht1 & Hm1). rewrite Hr1.
+    destruct (IH d s1) as (s2 & o2 & Hr2 & Ht2 & Hm2). rewrite Hr2.
+    exists s2, (o1 ++ o2). split; [reflexivity|]. split.
+    + rewrite targets_app, Ht1, Ht2. now rewrite <- map_app.
+    + intros l Hl. rewrite Hm2, Hm1 by lia. reflexivity.
+Qed.
+
+Theorem body_correct_est : forall c, PE c.
+Proof.
+  induction c as [ra0 h kids tails IHk IHt] using call_ind'.
+  assert (HQ : Forall QE kids) by (eapply Forall_impl; [apply QE_of_PE | exact IHk]).
+  intros d s. cbn [body native_body]. cbn [run_ops_est].
+  pose proof (run_op_est_mem s (OEnter h d)) as Hm0. cbn beta iota in Hm0.
+  destruct (run_op_est s (OEnter h d)) as [s1 u1] eqn:E1. cbn [fst] in Hm0.
+  assert (Hu1 : u1 = UNone) by (destruct h as [|r| |]; cbn in E1; inversion E1; reflexivity).
+  subst u1.
+  destruct (kids_run_est kids HQ d s1) as (s2 & o2 & Hr2 & Ht2 & Hm2).
+  rewrite run_ops_est_app, Hr2.
+  set (cx := match h with HC => [OCygExit] | _ => [] end).
+  destruct (run_ops_est s2 cx) as [s3 o3] eqn:E3.
+  assert (H3 : mem s3 = mem s2 /\ targets o3 = []).
+  { unfold cx in E3. destruct h as [|r| |]; cbn in E3; inversion E3; subst; auto.
+    split; [|reflexivity]. pose proof (run_op_est_mem s2 OCygExit) as Hx. cbn in Hx. exact Hx. }
+  destruct H3 as [Hm3 Ht3].
+  rewrite run_ops_est_app, E3.
+  destruct (tails_run_est tails IHt d s3) as (s4 & o4 & Hr4 & Ht4 & Hm4). rewrite Hr4.
+  exists s4. eexists. split; [reflexivity|]. split.
+  - change (UNone :: o2 ++ o3 ++ o4) with ([UNone] ++ o2 ++ o3 ++ o4).
+    rewrite !targets_app, Ht2, Ht3, Ht4, map_app. reflexivity.
+  - intros l Hl. rewrite Hm4 by lia. rewrite Hm3. rewrite Hm2 by lia. now rewrite Hm0.
+Qed.
+
+(* under --estimate-return every activation of EVERY call tree (any hooks, any triggers) returns where the
+   untraced program returns, from any state, and no outer return slot changes *)
+Theorem estimate_return_is_native : forall c d s,
+  exists s' outs, run_ops_est s (full d c) = (s', outs) /\
+                  targets outs = map Some (native c) /\
+                  (forall l, l < d -> mem s' l = mem s l).
+Proof. intros c. apply QE_of_PE, body_correct_est. Qed.
+
+Example nv_estimate_return :
+  targets (snd (run_ops_est st0 (full 1 nv_tree))) = map Some (native nv_tree) /\
+  length (rs (fst (run_ops_est st0 (full 1 nv_tree)))) = 2.
+Proof. vm_compute. split; reflexivity. Qed.
+
+(* ------------------------------------------------------------------ thread schedules *)
+(* whatever the interleaving, each thread sees exactly the run of its own operations *)
+Lemma run_sched_proj sched : forall ss t,
+  fst (run_sched ss sched) t = fst (run_ops (ss t) (proj t sched)) /\
+  proj t (snd (run_sched ss sched)) = snd (run_ops (ss t) (proj t sched)).
+Proof.
+  induction sched as [|[t0 o] r IH]; intros ss t; cbn [run_sched proj filter map fst snd].
+  - cbn. auto.
+  - destruct (run_op (ss t0) o) as [s1 u] eqn:E.
+    specialize (IH (tupd ss t0 s1) t).
+    destruct (run_sched (tupd ss t0 s1) r) as [ss2 us] eqn:E2. cbn [fst snd] in *.
+    unfold proj in *. cbn [filter fst].
+    destruct (Nat.eqb_spec t0 t) as [->|Hne].
+    + cbn [map snd run_ops]. rewrite E.
+      unfold tupd in IH at 1 2. rewrite Nat.eqb_refl in IH.
+      destruct (run_ops s1 (map snd (filter (fun p : nat * op => fst p =? t) r))) as [s3 us3] eqn:E3.
+      cbn [fst snd] in *. destruct IH as [IH1 IH2]. split; [exact IH1|]. now rewrite IH2.
+    + unfold tupd in IH at 1 2. destruct (Nat.eqb_spec t t0) as [->|_]; [congruence|]. exact IH.
+Qed.
+
+(* for all thread schedules: if every thread performs the operations of a (recover-free) call tree, every
+   return of every thread goes to its real caller, however the threads are interleaved *)
+Theorem threads_return_to_real_callers : forall (trees : nat -> call) (sched : list (nat * op)) (t : nat),
+  proj t sched = full 1 (trees t) ->
+  no_recover (trees t) = true ->
+  targets (proj t (snd (run_sched (fun _ => st0) sched))) = map Some (native (trees t)) /\
+  rs (fst (run_sched (fun _ => st0) sched) t) = [].
+Proof.
+  intros trees sched t Hp Hn.
+  destruct (run_sched_proj sched (fun _ => st0) t) as [H1 H2]. rewrite H1, H2, Hp.
+  destruct (program_returns_to_real_callers (trees t) Hn) as (s' & outs & Hr & Ht & Hrs).
+  rewrite Hr. cbn. auto.
+Qed.
+
+(* non-vacuity: two threads, operations interleaved one by one *)
+Fixpoint zip2 (a b : list op) : list (nat * op) :=
+  match a, b with
+  | x :: a', y :: b' => (1, x) :: (2, y) :: zip2 a' b'
+  | [], _ => map (fun y => (2, y)) b
+  | _, [] => map (fun x => (1, x)) a
+  end.
+Example nv_two_threads :
+  let trees := fun t => if Nat.eqb t 1 then nv_tree else Call 200 (HM false) [Call 201 (HM false) [] [Call 0 HP [] []]] [] in
+  let sched := zip2 (full 1 (trees 1)) (full 1 (trees 2)) in
+  proj 1 sched = full 1 (trees 1) /\ proj 2 sched = full 1 (trees 2) /\
+  targets (proj 2 (snd (run_sched (fun _ => st0) sched))) = map Some (native (trees 2)).
+Proof. vm_compute. repeat split; reflexivity. Qed.
